@@ -1,4 +1,6 @@
 import SekaiProofs.Lemmas.Ante
+import Sekai.Gen.App
+import Sekai.Model.App
 /-! # C09 — Fees: charged exactly as declared, within bounds; failed work leaves no trace
 
 Theorems about `Sekai.Ante` (the executable model of `ValidateFeeRangeDecorator`, the stock fee deduction,
@@ -340,5 +342,18 @@ def sR : State := { bal := fun a _ => if a = .feeCollector then 1000 else 0, his
 def refunded (c : Cfg) (s : State) (i : Nat) (d : String) : Option Nat :=
   match processExecutionFeeReturn c s with | .ok s' => some (s'.bal (.user i) d) | .error _ => none
 example : refunded cfgR sR 1 "ubtc" = some 9 ∧ refunded cfgR sR 1 "ukex" = some 9 := by decide
+
+/-! ### Application wiring (table `Gen.App`) -/
+
+/-- The ante chain in the order `Ante.runTx` applies it: fee range, then deduction, then the poor-network and
+frozen-token filters, then registration of the execution fee; each exactly once. -/
+theorem ante_fee_wiring :
+    Sekai.App.inOrder Sekai.Gen.App.anteChain
+      ["NewValidateFeeRangeDecorator", "ante.NewDeductFeeDecorator", "NewPoorNetworkManagementDecorator",
+       "NewBlackWhiteTokensCheckDecorator", "NewExecutionFeeRegistrationDecorator"] = true := by decide +kernel
+
+/-- the fee-processing EndBlocker (execution-fee return) runs, and after the gov EndBlocker (enactment) -/
+theorem feeprocessing_end_wiring :
+    Sekai.App.before Sekai.Gen.App.endOrder "govtypes.ModuleName" "feeprocessingtypes.ModuleName" = true := by decide +kernel
 
 end Sekai.Props.C09
